@@ -70,7 +70,6 @@ package types
 
 //@ func (*types.PAReqEncPARep).Unmarshal(p, b) (err)
 //@   modifies *p
-//@   trusted_frame the decoded structure is filled through the reflection-driven ASN.1 codec
 
 // Property C08: a generated key has the protocol key length its etype requires (RFC 3961 6.3, RFC 3962 6,
 // RFC 8009 5: 24, 16, 32, 16, 32, 16 octets) and carries the etype's number.
